@@ -12,6 +12,7 @@ from translate.common import TranslatorError
 
 DEDUP = 'pyglove/core/geno/deduping.py'
 EVO = 'pyglove/ext/evolution/base.py'
+NSGA2 = 'pyglove/ext/evolution/nsga2.py'
 
 
 def _calls(node):
@@ -97,20 +98,85 @@ def evo_facts():
   return proposal_order, init_bump, per_call, {'iter': it, 'generation_guard': guards[0], 'done_test': done[0]}
 
 
+EXPECTED_NSGA2_UPDATE = (
+    "(base.GlobalStateGetter('elites', []) + base.Identity() >> "
+    "base.Lambda(nondominated_sort()).for_each(crowding_distance_sort()).flatten() >> "
+    "selectors.First(population_size).as_global_state('elites').set_global_state('elite_cursor', 0))"
+    ".if_true(lambda x: len(x) >= population_size)")
+
+
+def nsga2_facts():
+  """Shape of the NSGA2 operator pipeline and of its crowding-distance sort (mirrored by PgModel/Nsga2.lean)."""
+  _, tree = common.parse_source(NSGA2)
+  fn = common.find_func(tree, 'nsga2')
+  calls = [n for n in ast.walk(fn) if isinstance(n, ast.Call) and ast.unparse(n.func) == 'base.Evolution']
+  if len(calls) != 1:
+    raise TranslatorError('nsga2(): expected one base.Evolution(...) call')
+  call = calls[0]
+  kw = {k.arg: k.value for k in call.keywords}
+  if len(call.args) != 1 or ast.unparse(call.args[0]) != 'next_elite() >> mutator':
+    raise TranslatorError('nsga2(): reproduction is not `next_elite() >> mutator`: %s'
+                          % [ast.unparse(a) for a in call.args])
+  upd = ast.unparse(kw.get('population_update')) if kw.get('population_update') is not None else None
+  if upd != EXPECTED_NSGA2_UPDATE:
+    raise TranslatorError('nsga2(): population_update pipeline changed: %s' % upd)
+  init = ast.unparse(kw.get('population_init')) if kw.get('population_init') is not None else ''
+  import re
+  m = re.fullmatch(r'\(pg\.geno\.Random\(seed=seed\), population_size \* (\d+)\)', init)
+  if not m:
+    raise TranslatorError('nsga2(): unknown population_init %r' % init)
+  init_factor = int(m.group(1))
+  cds = common.find_func(tree, 'crowding_distance_sort')
+  boundary = None
+  for n in ast.walk(cds):
+    if isinstance(n, ast.If) and ast.unparse(n.test) == 'j == 0 or j == individual_num - 1':
+      st = n.body[0]
+      if isinstance(st, ast.Assign) and ast.unparse(st.value) == 'objective_num':
+        boundary = True
+      elif isinstance(st, ast.AugAssign) and isinstance(st.op, ast.Add) and ast.unparse(st.value) == 'objective_num':
+        boundary = False
+      inner = n.orelse[0] if n.orelse else None
+      if not (isinstance(inner, ast.If) and ast.unparse(inner.test) == 'max_value > min_value'
+              and isinstance(inner.body[0], ast.AugAssign)):
+        raise TranslatorError('crowding_distance_sort: interior-point update changed')
+  if boundary is None:
+    raise TranslatorError('crowding_distance_sort: boundary-point assignment not found')
+  finals = [n for n in ast.walk(cds) if isinstance(n, ast.Call) and ast.unparse(n.func) == 'sorted'
+            and any(k.arg == 'key' and 'distances' in ast.unparse(k.value) for k in n.keywords)]
+  if len(finals) != 1:
+    raise TranslatorError('crowding_distance_sort: final sort by distance not found')
+  descending = any(k.arg == 'reverse' and ast.unparse(k.value) == 'True' for k in finals[0].keywords)
+  nds = ast.unparse(common.find_func(tree, 'nondominated_sort'))
+  if 'queue.pop(0)' not in nds or 'indegree[child] -= 1' not in nds:
+    raise TranslatorError('nondominated_sort: the queue-based topological sort changed')
+  ne = ast.unparse(common.find_func(tree, 'next_elite'))
+  if 'global_state.elites[global_state.elite_cursor]' not in ne:
+    raise TranslatorError('next_elite: changed')
+  return {'initFactor': init_factor, 'boundaryOverwrites': boundary, 'descending': descending}
+
+
 def run():
   forwards, d_info = dedup_facts()
   order, bump, per_call, e_info = evo_facts()
+  nf = nsga2_facts()
   lean = '''/- GENERATED by translate/t_c15.py from the current source of /repo — do not edit. -/
 import PgModel.Gen
+import PgModel.Nsga2
 namespace Pg.C15
 
 /-- Structural facts of `Deduping.recover/_replay` and `Evolution.recover` in the current source. -/
 def currentQuirks : Quirks :=
   { dedupForwardsReplay := %s, evoProposalOrder := %s, evoInitGenBump := %s, evoInitDonePerCall := %s }
 
+/-- Shape facts of pyglove/ext/evolution/nsga2.py (operator pipeline checked by the translator). -/
+def nsga2Facts : Nsga2.Facts :=
+  { initFactor := %d, boundaryOverwrites := %s, descending := %s }
+
 end Pg.C15
-''' % (common.lean_bool(forwards), common.lean_bool(order), common.lean_bool(bump), common.lean_bool(per_call))
-  sidecar = {'sources': {DEDUP: common.sha(DEDUP), EVO: common.sha(EVO)},
+''' % (common.lean_bool(forwards), common.lean_bool(order), common.lean_bool(bump), common.lean_bool(per_call),
+       nf['initFactor'], common.lean_bool(nf['boundaryOverwrites']), common.lean_bool(nf['descending']))
+  sidecar = {'sources': {DEDUP: common.sha(DEDUP), EVO: common.sha(EVO), NSGA2: common.sha(NSGA2)},
+             'nsga2': nf,
              'quirks': {'dedupForwardsReplay': forwards, 'evoProposalOrder': order, 'evoInitGenBump': bump,
                         'evoInitDonePerCall': per_call},
              'matched': {'deduping': d_info, 'evolution': e_info}}
